@@ -1,25 +1,181 @@
 use psim::exec::*;
+use psim::gen::generate;
+use psim::minimise::minimise;
+use psim::oracle::{self, Verdict};
 use psim::scenario::*;
-use psim::sched::{self, Policy};
+use psim::sched;
+use std::io::Write;
+
+fn arg<'a>(args: &'a [String], name: &str) -> Option<&'a str> {
+    args.iter().position(|a| a == name).and_then(|i| args.get(i + 1)).map(|s| s.as_str())
+}
+fn flag(args: &[String], name: &str) -> bool {
+    args.iter().any(|a| a == name)
+}
+
+pub fn jstr(s: &str) -> String {
+    let mut o = String::with_capacity(s.len() + 2);
+    o.push('"');
+    for c in s.chars() {
+        match c {
+            '"' => o.push_str("\\\""),
+            '\\' => o.push_str("\\\\"),
+            '\n' => o.push_str("\\n"),
+            '\t' => o.push_str("\\t"),
+            c if (c as u32) < 0x20 => o.push_str(&format!("\\u{:04x}", c as u32)),
+            c => o.push(c),
+        }
+    }
+    o.push('"');
+    o
+}
+
+fn parse_decisions(s: &str) -> Vec<u16> {
+    s.split(',').filter(|x| !x.is_empty()).map(|x| x.parse().expect("decision")).collect()
+}
+
+fn enc_decisions(d: &[u16]) -> String {
+    d.iter().map(|x| x.to_string()).collect::<Vec<_>>().join(",")
+}
+
+fn report(prop: &str, seed: u64, scn: &Scenario, rf: &psim::reference::Ref, ex: &Exec, full: bool) -> (String, bool) {
+    let v = oracle::check(prop, scn, rf, ex);
+    let (verdict, keys, detail) = match &v {
+        Verdict::Ok => ("ok", vec![], String::new()),
+        Verdict::Violation(fs) => (
+            "violation",
+            fs.iter().map(|x| x.key.clone()).collect::<Vec<_>>(),
+            fs.iter().map(|x| format!("[{}] {}", x.key, x.detail)).collect::<Vec<_>>().join(" ; "),
+        ),
+        Verdict::Harness(m) => ("harness", vec![], m.clone()),
+    };
+    let bad = verdict != "ok";
+    let workers: usize = ex.rec.frames.iter().map(|f| f.registered).sum();
+    let probes = oracle::probes(scn, rf, ex);
+    let mut s = String::new();
+    s.push_str(&format!(
+        "{{\"seed\":{},\"verdict\":{},\"keys\":[{}],\"detail\":{},\"steps\":{},\"decisions\":{},\"workers\":{},\"frames\":{},\"ilv\":\"{:016x}\",\"nontrivial\":{},\"probes\":[{}],\"policy\":{},\"term\":{},\"src\":{},\"shape\":{},\"len\":{},\"hash\":\"{:016x}\",\"fired\":{},\"panicked\":{}",
+        seed,
+        jstr(verdict),
+        keys.iter().map(|k| jstr(k)).collect::<Vec<_>>().join(","),
+        jstr(&detail),
+        ex.rec.steps,
+        ex.rec.decisions.len(),
+        workers,
+        ex.rec.frames.len(),
+        oracle::interleaving_hash(ex),
+        oracle::nontrivial(ex),
+        probes.iter().map(|k| jstr(k)).collect::<Vec<_>>().join(","),
+        jstr(&scn.policy.encode()),
+        jstr(scn.term.name()),
+        jstr(scn.src.name()),
+        jstr(&scn.shape()),
+        scn.vals.len(),
+        log_hash(&ex.rec),
+        ex.fired.iter().filter(|x| **x).count(),
+        ex.outcome.is_err(),
+    ));
+    if bad || full {
+        s.push_str(&format!(
+            ",\"scenario\":{},\"decision_list\":{}",
+            jstr(&scn.encode()),
+            jstr(&enc_decisions(&ex.rec.decisions))
+        ));
+    }
+    s.push('}');
+    (s, bad)
+}
 
 fn main() {
+    let args: Vec<String> = std::env::args().collect();
+    if args.len() < 2 {
+        eprintln!("usage: psim run|replay|minimise|gen ...");
+        std::process::exit(2);
+    }
     sched::install_hooks();
     install_panic_hook();
-    let scn = Scenario {
-        seed: 1, src: Src::Vec, vals: (0..20).map(|x| x % 5).collect(),
-        ops: vec![Op::Map{mul:2,add:1}, Op::Filter{m:3,t:2,salt:1}],
-        nt: vec![(0,3)], cs: vec![(0,Chunk::Exact(2))], term: Term::CollectVec,
-        policy: Policy::Uniform, noise: 0, avail: 8, sched_seed: 5, faults: vec![], starve_release: 0,
-    };
-    println!("{}", scn.encode());
-    assert_eq!(Scenario::decode(&scn.encode()).unwrap(), scn);
-    let t = std::time::Instant::now();
-    let (r, e) = exec(&scn, None, false);
-    println!("{:?} steps={} decisions={} abort={:?} hash={:x}", t.elapsed(), e.rec.steps, e.rec.decisions.len(), e.rec.abort, log_hash(&e.rec));
-    println!("match: {:?}", psim::reference::value_matches(&scn, &r, e.outcome.as_ref().unwrap()));
-    let (_, e2) = exec(&scn, None, false);
-    println!("again hash={:x}", log_hash(&e2.rec));
-    let (_, e3) = exec(&scn, Some(e.rec.decisions.clone()), false);
-    println!("replay hash={:x} diverged={}", log_hash(&e3.rec), e3.rec.diverged);
-    for ev in e.rec.log.iter().take(40) { println!("{:?}", ev); }
+    let out = std::io::stdout();
+    match args[1].as_str() {
+        "gen" => {
+            let prop = arg(&args, "--prop").expect("--prop");
+            let seed: u64 = arg(&args, "--seed").expect("--seed").parse().unwrap();
+            println!("{}", generate(prop, seed).encode());
+        }
+        "run" => {
+            let prop = arg(&args, "--prop").expect("--prop");
+            let start: u64 = arg(&args, "--start").unwrap_or("0").parse().unwrap();
+            let count: u64 = arg(&args, "--count").unwrap_or("1").parse().unwrap();
+            let stride: u64 = arg(&args, "--stride").unwrap_or("1").parse().unwrap();
+            let deadline = arg(&args, "--seconds").map(|s| std::time::Instant::now() + std::time::Duration::from_secs_f64(s.parse().unwrap()));
+            let sample_every: u64 = arg(&args, "--sample-every").unwrap_or("0").parse().unwrap();
+            let max_viol: u64 = arg(&args, "--max-violations").unwrap_or("20").parse().unwrap();
+            let mut nviol = 0;
+            for i in 0..count {
+                if let Some(d) = deadline {
+                    if std::time::Instant::now() >= d {
+                        break;
+                    }
+                }
+                let seed = start + i * stride;
+                {
+                    let mut o = out.lock();
+                    writeln!(o, "{{\"begin\":{}}}", seed).unwrap();
+                    o.flush().unwrap();
+                }
+                let scn = generate(prop, seed);
+                let (rf, ex) = exec(&scn, None, false);
+                let full = sample_every > 0 && i % sample_every == 0;
+                let (line, bad) = report(prop, seed, &scn, &rf, &ex, full);
+                let mut o = out.lock();
+                writeln!(o, "{}", line).unwrap();
+                o.flush().unwrap();
+                if bad {
+                    nviol += 1;
+                    if nviol >= max_viol {
+                        break;
+                    }
+                }
+            }
+            let mut o = out.lock();
+            writeln!(o, "{{\"done\":true}}").unwrap();
+        }
+        "replay" => {
+            let prop = arg(&args, "--prop").expect("--prop");
+            let scn = Scenario::decode(arg(&args, "--scenario").expect("--scenario")).expect("scenario text");
+            let dec = arg(&args, "--decisions").map(parse_decisions);
+            let (rf, ex) = exec(&scn, dec, flag(&args, "--tolerant"));
+            let (line, _) = report(prop, scn.seed, &scn, &rf, &ex, true);
+            println!("{}", line);
+            if flag(&args, "--log") {
+                for e in &ex.rec.log {
+                    eprintln!("{:?}", e);
+                }
+                eprintln!("outcome: {:?}", ex.outcome);
+                eprintln!("frames: {:?}", ex.rec.frames);
+            }
+            if ex.rec.diverged {
+                eprintln!("replay diverged from the decision list");
+            }
+        }
+        "minimise" => {
+            let prop = arg(&args, "--prop").expect("--prop");
+            let scn = Scenario::decode(arg(&args, "--scenario").expect("--scenario")).expect("scenario text");
+            let key = arg(&args, "--key").expect("--key");
+            let budget: usize = arg(&args, "--runs").unwrap_or("400").parse().unwrap();
+            let m = minimise(prop, &scn, key, budget);
+            println!(
+                "{{\"scenario\":{},\"decision_list\":{},\"hash\":\"{:016x}\",\"runs\":{},\"detail\":{},\"reproduced\":{}}}",
+                jstr(&m.scenario.encode()),
+                jstr(&enc_decisions(&m.decisions)),
+                m.hash,
+                m.runs,
+                jstr(&m.detail),
+                m.reproduced
+            );
+        }
+        _ => {
+            eprintln!("unknown command");
+            std::process::exit(2);
+        }
+    }
 }
